@@ -47,11 +47,36 @@ def run_verus(pid, unit, tier, seed, keep=False):
             mods = sorted(set([_module_of(r) for r in files] + ["verif_specs::m" + x for x in specs] + unit.get("modules", [])))
             for m in mods:
                 extra += ["--verify-only-module", m]
-        run = engine.run_verus(s, extra=extra, rlimit=unit.get("rlimit", 200))
+        # heavy functions are verified in their own Verus invocation (same annotated crate, fixed
+        # query context, higher resource limit), concurrently with the main run
+        from concurrent.futures import ThreadPoolExecutor
+        iso = [i for i in unit.get("isolate", []) if tier == "quick" or True]
+        def _iso(spec):
+            mod, pat = spec
+            return spec, engine.run_verus(s, extra=["--verify-only-module", mod, "--verify-function", pat], rlimit=unit.get("iso_rlimit", 3000), threads=2, timeout=1500)
+        with ThreadPoolExecutor(max_workers=1 + len(iso)) as ex:
+            fut_main = ex.submit(engine.run_verus, s, extra, unit.get("rlimit", 800), 12)
+            futs = [ex.submit(_iso, i) for i in iso]
+            run = fut_main.result()
+            iso_runs = [f.result() for f in futs]
         summ = engine.summarize(run)
         fails = engine.classify(meta, run)
+        iso_ok = set()
+        for (mod, pat), r in iso_runs:
+            sm = engine.summarize(r)
+            fl = engine.classify(meta, r)
+            name = pat.replace("*", "")
+            if r["result"] is not None and not fl and (sm.get("verified") or 0) >= 1:
+                iso_ok.add(name)
+            else:
+                fails += [f for f in fl if f["kind"] != "rlimit"]
+                if any(f["kind"] == "rlimit" for f in fl) or r["result"] is None:
+                    fails.append({"obligation": "%s::rlimit(isolated)" % pat, "fn": None, "message": "resource limit in the isolated run", "kind": "rlimit", "file": "verif_specs", "line": 0, "text": "", "rendered": ""})
+            out.setdefault("isolated_runs", []).append({"function": pat, "verified": sm.get("verified"), "wall_s": round(r["wall"], 1)})
+        # the main run's verdict on an isolated function is superseded by the isolated run
+        fails = [f for f in fails if not (f["fn"] and any(f["fn"].endswith(n) for n in iso_ok) )]
         out["checker_cmd"] = run["cmd"]
-        out["rlimit"] = unit.get("rlimit", 200)
+        out["rlimit"] = unit.get("rlimit", 800)
         tm = summ.get("times_ms") or {}
         out["smt_time_s"] = round(((tm.get("smt") or {}).get("total", 0)) / 1000.0, 2)
         out["verified_functions"] = summ.get("verified")
@@ -70,7 +95,13 @@ def run_verus(pid, unit, tier, seed, keep=False):
             failed_ids.add(f["obligation"])
             out["violations"].append({"obligation": f["obligation"], "message": f["message"], "kind": f["kind"],
                                       "function": f["fn"], "verifier_output": f["rendered"][:4000], "input": None})
-        n_obl = len(scope_obl) + len(scope_fns)   # + one safety/termination obligation per function body
+        # lemmas of the spec modules this unit verifies (each proved lemma is one obligation)
+        n_lem = 0
+        for x in (unit.get("specs") or [n[:-3] for n in sorted(os.listdir(engine.CONTRACTS)) if n.endswith(".rs")]):
+            txt = open(os.path.join(engine.CONTRACTS, x + ".rs")).read()
+            n_lem += len(re.findall(r"(?<!external_body\]\n)(?:pub )?proof fn \w+", txt))
+        out["lemmas"] = n_lem
+        n_obl = len(scope_obl) + len(scope_fns) + n_lem   # + one safety/termination obligation per function body
         out["obligations"] = n_obl
         out["discharged"] = n_obl - len(failed_ids)
         out["functions"] = scope_fns
